@@ -85,6 +85,35 @@ R4 = Harness(
 )
 
 
+# ------------------------------------------------------------------------------ G-addrace (scenario shared with C03)
+def _addrace_fn(a, tier):
+    from . import c03 as _c03
+
+    return _c03._addrace(a, tier, "C04")
+
+
+def _addrace_params(tier):
+    from . import c03 as _c03
+
+    return _c03.addrace_params(tier)
+
+
+ADDRACE = Harness(
+    prop="C04",
+    name="G-addrace",
+    fn=guard(_addrace_fn),
+    params=_addrace_params,
+    cube=lambda tier: 3,
+    title="a type of the factory that gets taken by a static resource WHILE the generation is in flight keeps the static resource",
+    bound_text=lambda tier: "as C03 G-addrace: async (T0,T1) factory awaiting 0-2 checkpoints raced by add_resource(T1) after 0-3 checkpoints under arbitrary "
+    "schedule prefixes; and a synchronous (T0,T1) factory that publishes the static T1 itself while it runs (sync and async lookup API)",
+    oracle="the product is stored under the factory's types 'not already taken by another resource' at the moment it is stored: the static T1 is what "
+    "every lookup API returns from then on, the product stays under T0",
+    outside="more tasks; factories that raise",
+    stubs=STUBS_COMMON,
+)
+
+
 # ------------------------------------------------------------------------------ G-race
 APIS = ["await get_resource(T0)", "await get_resource(T1)", "get_resource_nowait(T0)", "injected async fn (T0)"]
 
@@ -92,17 +121,17 @@ APIS = ["await get_resource(T0)", "await get_resource(T1)", "get_resource_nowait
 def race_params(tier):
     S = 5 if tier == "quick" else 7
     n = 3
-    return [P("ntask", 0, n - 2), P("fsteps", 0, 3), P("multi", 0, 1), P("failfirst", 0, 1)] + [P(f"api{i}", 0, 3) for i in range(n)] + [
+    return [P("ntask", 0, n - 2), P("fsteps", 0, 3), P("multi", 0, 1), P("failfirst", 0, 2)] + [P(f"api{i}", 0, 3) for i in range(n)] + [
         P(f"s{i}", 0, 3 if tier == "quick" else 4) for i in range(S)
     ]
 
 
-@guard
-def race_fn(a, tier):
+def _race(a, tier, fail_override=None):
     S = 5 if tier == "quick" else 7
     fsteps = pick(a["fsteps"], 4) - 1  # -1: a synchronous factory; 0..2: async factory awaiting that many checkpoints
     multi = pick(a["multi"], 2)
-    failfirst = pick(a["failfirst"], 2) if fsteps >= 0 else 0  # the first generation attempt raises after its checkpoints
+    # 1: the first generation attempt raises after its checkpoints; 2: the task running the first attempt is cancelled in mid-generation
+    failfirst = (pick(a["failfirst"], 3) if fail_override is None else fail_override) if fsteps >= 0 else 0
     if tier == "quick":
         n = 3 if failfirst else 2  # a failed generation needs two waiters behind it
     else:
@@ -122,6 +151,10 @@ def race_fn(a, tier):
         v = Val(f"gen#{mine}")
         for _ in range(fsteps):
             await anyio.sleep(0)
+        if failfirst == 2 and mine == 1 and anyio.get_current_task().id in scopes:
+            scopes[anyio.get_current_task().id].cancel()
+            cancelled.append(anyio.get_current_task().id)
+            await anyio.sleep(0)
         if failfirst and mine == 1:
             raise FactoryBoom("first generation fails")
         return v
@@ -132,7 +165,16 @@ def race_fn(a, tier):
 
     factory = sfactory if fsteps < 0 else afactory
 
+    scopes, cancelled = {}, []
+
     async def racer(i, ctx):
+        with anyio.CancelScope() as scope:
+            scopes[anyio.get_current_task().id] = scope
+            await racer_(i, ctx)
+        if scope.cancelled_caught:
+            results[i] = "cancelled-in-mid-generation"
+
+    async def racer_(i, ctx):
         api = apis[i]
         try:
             if api == 0:
@@ -187,7 +229,8 @@ def race_fn(a, tier):
     summary = {"tasks": [APIS[x] for x in apis], "factory": "synchronous" if fsteps < 0 else f"async, {fsteps} checkpoints", "multi_type": bool(multi), "first_generation_raises": bool(failfirst),
                "schedule": tape.taken, "factory_calls": len(calls)}
     objs = [r for r in results.values() if isinstance(r, Val)] + [f for f in final if isinstance(f, Val)]
-    booms = [i for i, r in results.items() if type(r).__name__ == "FactoryBoom"]
+    booms = [i for i, r in results.items() if type(r).__name__ == "FactoryBoom" or r == "cancelled-in-mid-generation"]
+    summary["first_generation"] = ["succeeds", "raises", "its requester is cancelled while the factory is awaited"][failfirst]
     apis_of = lambda i: 0 if i == "main" else apis[i]  # noqa: E731
     if failfirst:
         # exactly the requester that ran the failing generation sees the error; the others retry: ONE more call
@@ -228,6 +271,8 @@ def race_fn(a, tier):
     return OK(summary, nontrivial=True)
 
 
+race_fn = guard(lambda a, tier: _race(a, tier))
+
 RACE = Harness(
     prop="C04",
     name="G-race",
@@ -235,15 +280,15 @@ RACE = Harness(
     params=race_params,
     cube=lambda tier: 6 if tier == "quick" else 7,
     title="concurrent lookups of one async factory from several tasks under all schedule prefixes",
-    bound_text=lambda tier: f"2-3 tasks x first generation attempt raises or not x lookup API{{get_resource(T0), get_resource(sibling type), get_resource_nowait, injected}} "
+    bound_text=lambda tier: f"2-3 tasks x first generation attempt {{succeeds, raises, its requester is cancelled while the factory is awaited}} x lookup API{{get_resource(T0), get_resource(sibling type), get_resource_nowait, injected}} "
     f"x factory {{synchronous, async awaiting 0-2 checkpoints}} x single/multi-type; first {5 if tier == 'quick' else 8} scheduling decisions arbitrary (any of up to 5 runnable tasks; 3 decisions in the 3-task quick variant), FIFO afterwards",
     oracle="factory called exactly once, in the requesting context; every successful lookup (racing or later, any type of the factory) "
     "returns that one object; exactly one resource_added event for the generation; the sync API either refuses (AsyncResourceError) or returns the stored product",
-    outside="factories that raise; >3 racing tasks; schedules deviating after the prefix",
+    outside=">3 racing tasks; schedules deviating after the prefix",
     stubs=STUBS_COMMON,
 )
 
-HARNESSES = [R, R4, RACE]
+HARNESSES = [R, R4, RACE, ADDRACE]
 
 
 # ------------------------------------------------------------------------------ K-comp
